@@ -22,7 +22,10 @@ for d in sorted(glob.glob('/verif/seeded/*/')):
     if len(summ) > 200:
         summ = summ[:197] + '...'
     kind = 'revert' if name.startswith('R-') else 'agent'
-    rows.append((name, kind, val if kind == 'agent' else 'revert of a fix', summ, '; '.join(caught) or 'no trial yet'))
+    col = '; '.join(caught) or 'no trial yet'
+    if m.get('neutralised'):
+        col = 'not a violation on the final tree: ' + m['neutralised'] + (' (' + col + ')' if caught else '')
+    rows.append((name, kind, val if kind == 'agent' else 'revert of a fix', summ, col))
 print('| seed | validated | change | caught by (violations at quick tier, seed 1: first signature) |')
 print('|------|-----------|--------|------------------|')
 for r in rows:
